@@ -4,6 +4,14 @@ import json, sys
 props=[json.loads(l)['id'] for l in open('/verif/properties.jsonl')]
 TECH="bounded symbolic execution of the real go/ssa code; every branch, panic guard and assertion decided by SMT (z3, cross-checked with z3 5.1 and cvc5); counterexamples replayed natively"
 CHECKS={
+ "C08": dict(
+   text="Bounded model checking by symbolic execution: each of the 28 exported command methods of *Conn is run from go/ssa with every argument byte a solver variable (all 256 values, CR/LF/NUL/\\x01 included), SplitLen from 6 representative values; the lines queued on the real output channel are asserted CR/LF-free and to begin with the method's verb, then the real write() is run over a bufio model on an in-memory connection and the wire is asserted to be exactly line+CRLF with one flush per line. Each assertion is an SMT validity query over all argument values within the length bound.",
+   ref="DESIGN.md §4 C08",
+   note="Bounds: arguments 0..2 bytes (quick) / 0..4 bytes (thorough), 0..2 variadic elements. The CTCP verb argument is ASCII (strings.ToUpper model). Stubs: bufio.Reader/Writer semantic model, fmt.Sprintf/Sprintln return arbitrary text <= 2 bytes. Trusted: go/ssa, interpreter, models, z3."),
+ "C11": dict(
+   text="Bounded model checking by symbolic execution of the real splitMessage / indexFragment and of Privmsg, Notice, Ctcp, CtcpReply, Action, Privmsgf: the text has a concrete length and fully symbolic bytes (all values but CR/LF), strings.LastIndex is encoded as an ite-chain term so the cut index is a solver variable whose feasible values are enumerated by the solver; asserted per split: piece length <= limit, '...' on all but the last, no empty piece, exact reassembly, short texts unsplit, and on the wire each piece framed as its own message to the same target in order.",
+   ref="DESIGN.md §4 C11",
+   note="Bounds: SplitLen 13..14 with texts up to SplitLen+8 (quick), 13..16 up to +14 (thorough) - i.e. the first 2-4 loop iterations with every byte layout; any SplitLen < 13 on the comparison; default limit 450 with a fixed 'a' filler and 6..12 symbolic bytes around the cut (a fully symbolic 451-byte text timed out in all solvers and is NOT claimed). Longer texts are outside. Trusted: go/ssa, interpreter, LastIndex/Join/ToUpper models, z3."),
  "C01": dict(
    text="Bounded model checking by symbolic execution of a serializer-first round trip: message components (tags, source, verb, middles, gaps, trailing, CTCP verb/text) are solver variables constrained only by RFC 2812 / IRCv3 well-formedness; a reference serializer builds the wire text, the real ParseLine / parseUserHost / Text / Target / Public (go/ssa of the working tree) are executed on it symbolically, and every field comparison is an SMT validity query. Holds for all component values within the size bounds; sat answers are replayed natively.",
    ref="DESIGN.md §4 C01",
